@@ -6,7 +6,7 @@
    real code: known_findings.txt F1, F10, F12, F8); _partial = proved under the stated hypotheses. *)
 From Coq Require Import List Arith Bool NArith.
 From AV Require Import model.C05_model model.C05_run proofs.C05_proofs proofs.C05_safety proofs.C05_repl
-  proofs.C05_phys proofs.C05_spec proofs.C05_witness.
+  proofs.C05_phys proofs.C05_spec proofs.C05_witness model.C05_fixed proofs.C05_fixed_proofs.
 Import ListNotations.
 
 (* -- clauses that hold for every layout, every replica set, every Desired ------------------------- *)
@@ -159,3 +159,13 @@ Theorem C05_hypotheses_satisfiable :
   hyp_b ex_ok3 = true /\ snd (m_out ex_ok3) = true.
 Proof. exact ex_ok_facts. Qed.
 Print Assumptions C05_hypotheses_satisfiable.
+
+(* -- the proposed repair (model/C05_fixed.v = current code + fixes/F1_F10_alt_protection_pass.diff,
+      F8.diff, F12.diff; exercised by the harness only with VERIF_C05_FIXED=1 on a patched copy) ------- *)
+
+(* the repaired algorithm meets the whole specification on every well-formed case: no hypothesis on
+   shared devices, mounts per class and server, offered classes or read-only flags *)
+Theorem C05_fixed_meets_spec : forall c, wf_b c = true ->
+  let '(chs, lost) := m_out_f c in Spec c (trashes chs) (pulls chs) lost.
+Proof. exact fixed_meets_spec. Qed.
+Print Assumptions C05_fixed_meets_spec.
